@@ -132,3 +132,60 @@ pub fn raw_of(s: &Shape) -> RawShape {
                                            kinds: m.patches().iter().map(patch_kind).collect(), bbox: bxz!(m.bbox()) },
     }
 }
+
+/// an encoder of its own (not the library's): the .shp / .shx bytes of raw shapes of one type, with their M block;
+/// boxes are taken from the shapes as given (nothing is computed, closed or reordered)
+pub fn encode_files(t: i32, shapes: &[RawShape]) -> (Vec<u8>, Vec<u8>) {
+    let mut body: Vec<u8> = vec![];
+    let mut index: Vec<u8> = vec![];
+    for (i, s) in shapes.iter().enumerate() {
+        let mut c: Vec<u8> = vec![];
+        c.extend_from_slice(&s.t.to_le_bytes());
+        let pts: Vec<&RPoint> = s.parts.iter().flatten().collect();
+        if family(s.t) == "point" {
+            let p = pts[0];
+            c.extend_from_slice(&p[0].to_le_bytes());
+            c.extend_from_slice(&p[1].to_le_bytes());
+            if stores_z(s.t) { c.extend_from_slice(&p[2].to_le_bytes()); }
+            if stores_m(s.t) { c.extend_from_slice(&p[3].to_le_bytes()); }
+        } else {
+            for k in 0..4 { c.extend_from_slice(&s.bbox[k].to_le_bytes()); }
+            if family(s.t) != "multipoint" {
+                c.extend_from_slice(&(s.parts.len() as i32).to_le_bytes());
+            }
+            c.extend_from_slice(&(pts.len() as i32).to_le_bytes());
+            if family(s.t) != "multipoint" {
+                let mut off = 0i32;
+                for p in &s.parts { c.extend_from_slice(&off.to_le_bytes()); off += p.len() as i32; }
+                if s.t == 31 { for k in &s.kinds { c.extend_from_slice(&k.to_le_bytes()); } }
+            }
+            for p in &pts { c.extend_from_slice(&p[0].to_le_bytes()); c.extend_from_slice(&p[1].to_le_bytes()); }
+            if stores_z(s.t) {
+                c.extend_from_slice(&s.bbox[4].to_le_bytes()); c.extend_from_slice(&s.bbox[5].to_le_bytes());
+                for p in &pts { c.extend_from_slice(&p[2].to_le_bytes()); }
+            }
+            if stores_m(s.t) {
+                c.extend_from_slice(&s.bbox[6].to_le_bytes()); c.extend_from_slice(&s.bbox[7].to_le_bytes());
+                for p in &pts { c.extend_from_slice(&p[3].to_le_bytes()); }
+            }
+        }
+        index.extend_from_slice(&((50 + body.len() / 2) as i32).to_be_bytes());
+        index.extend_from_slice(&((c.len() / 2) as i32).to_be_bytes());
+        body.extend_from_slice(&(i as i32 + 1).to_be_bytes());
+        body.extend_from_slice(&((c.len() / 2) as i32).to_be_bytes());
+        body.extend_from_slice(&c);
+    }
+    let header = |words: usize| -> Vec<u8> {
+        let mut h = vec![0u8; 100];
+        h[0..4].copy_from_slice(&9994i32.to_be_bytes());
+        h[24..28].copy_from_slice(&(words as i32).to_be_bytes());
+        h[28..32].copy_from_slice(&1000i32.to_le_bytes());
+        h[32..36].copy_from_slice(&t.to_le_bytes());
+        h
+    };
+    let mut shp = header(50 + body.len() / 2);
+    shp.extend_from_slice(&body);
+    let mut shx = header(50 + index.len() / 2);
+    shx.extend_from_slice(&index);
+    (shp, shx)
+}
